@@ -89,6 +89,22 @@ def storageLine (secs : List String) : Option String :=
     match decodeISResp (hexOr hex) with
     | none => some "err"
     | some r => some s!"term={r.term} bw={r.bytesWritten}"
+  | ["ENC", "CFG", kvs] =>
+    let kv := parseKV kvs
+    let pair := fun (t : String) => match t.splitOn ":" with
+      | [k, v] => (hexOr k, v)
+      | _ => ([], "-")
+    let c : WCfg := { index := natOr (kv.get "index"),
+                      members := (splitList (kv.get "members" "-")).map (fun t => ((pair t).1, hexOr (pair t).2)),
+                      voters := (splitList (kv.get "voters" "-")).map (fun t => ((pair t).1, parseBool (pair t).2)) }
+    some (showHex (encodeFields (cfgFields c)))
+  | ["DEC", "CFG", hex] =>
+    match decodeCfg (hexOr hex) with
+    | none => some "err"
+    | some c =>
+      let ms := joinList (c.members.map (fun kv => s!"{showHex kv.1}:{showHex kv.2}"))
+      let vs := joinList (c.voters.map (fun kv => s!"{showHex kv.1}:{showBool kv.2}"))
+      some s!"index={c.index} members={ms} voters={vs}"
   | _ => none
 
 end Raft.Text
